@@ -71,6 +71,19 @@ def run(ck):
         jobs.append({"id": base_id + 2, "tree": stree, "op": {"k": "open", "path": H(sp), "flags": O["RDONLY"]}, "meta": {"path": sp}})
         jobs.append({"id": base_id + 3, "tree": stree, "op": {"k": "mkdir_all", "path": H(sp + "/m1"), "mode": 0o755}, "meta": {"path": sp}})
         jobs.append({"id": base_id + 4, "tree": stree, "op": {"k": "create", "path": H(sp + "/newf"), "type": "file", "mode": 0o644}, "meta": {"path": sp}})
+    # the I/O status flags the property names (append, non-blocking, direct, sync, noatime, directory) on every kind of object:
+    # a flag word openat2 accepts can still be refused by the OBJECT (O_DIRECT on a directory or a fifo is EINVAL at open time) --
+    # outcome, error class and errno must be the same on both backends
+    ftree = [["dir", H("root"), 0o755], ["dir", H("root/d"), 0o755], ["file", H("root/f"), H("data"), 0o644], ["fifo", H("root/p"), 0o644],
+             ["symlink", H("root/ld"), H("d")], ["symlink", H("root/lf"), H("f")], ["symlink", H("root/lp"), H("p")]]
+    fid = 990000
+    for path in ("d", "f", "p", "ld", "lf", "lp", "d/", "f/"):
+        for fl in (O["DIRECT"], O["DIRECT"] | O["RDWR"], O["DIRECT"] | O["NONBLOCK"], O["DIRECT"] | O["DIRECTORY"], O["NOATIME"], O["APPEND"] | O["WRONLY"],
+                   O["SYNC"] | O["WRONLY"], O["NONBLOCK"] | O["DIRECTORY"], O["NOFOLLOW"] | O["DIRECT"]):
+            if path in ("p", "lp") and not fl & O["NONBLOCK"]:
+                fl |= O["NONBLOCK"]          # never block on the fifo
+            fid += 1
+            jobs.append({"id": fid, "tree": ftree, "op": {"k": "open", "path": H(path), "flags": fl}, "snap": "all", "meta": {"path": path}})
     for j in jobs:
         j["trace"] = False
         j.setdefault("snap", "all")
